@@ -668,4 +668,61 @@ def Flow.run (oracle : List Sealed) : Flow → List Bytes → List (List Bytes) 
     let (outs, f2) := Flow.run oracle f1 ds
     (out :: outs, f2)
 
+/-! ## The stream sniffer with a clock
+
+`NewStreamSniffer` fixes ONE absolute deadline `D` (creation time + timeout); every `readStreamOnce`
+arms the connection with that same instant.  Time is in whole milliseconds since the sniffer was
+created.  A timed script gives, for each client event, the delay after the previous one. -/
+
+structure TEv where
+  delay : Nat
+  ev : Ev
+deriving Repr, Inhabited
+
+structure TimedOutcome where
+  result : Except Err Bytes
+  needMoreSeen : Bool
+  buf : Bytes
+  dataError : Option Err
+  rest : List TEv
+  time : Nat            -- when `SniffTcp` returned
+deriving Repr
+
+/-- At EOF: an answer now, or (another `ErrNeedMore`) reads that return EOF at once, again and
+again, until the deadline `D` has passed. -/
+def atEofT (D : Nat) (buf : Bytes) (nm : Bool) (now : Nat) (rest : List TEv) : TimedOutcome :=
+  if buf = [] then ⟨.error .notApplicable, nm, buf, none, rest, now⟩
+  else match sniffGroupTcp buf with
+    | .error .needMore => ⟨.error .timeout, true, buf, none, rest, max now D⟩
+    | r => ⟨r, nm, buf, none, rest, now⟩
+
+/-- `SniffTcp` with the clock: a read returns when its event arrives, or at the deadline, whichever
+is first (an event arriving exactly at the deadline loses). -/
+def sniffLoopT (D : Nat) (buf : Bytes) (nm : Bool) (now : Nat) : List TEv → TimedOutcome
+  | [] => atEofT D buf nm now []
+  | ⟨dt, e⟩ :: rest =>
+    if now + dt < D then
+      match e with
+      | .eof => atEofT D buf nm (now + dt) (⟨0, .eof⟩ :: rest)
+      | .stall => sniffLoopT D buf nm (now + dt) rest
+      | .rst => ⟨.error .ioError, nm, buf, some .ioError, ⟨0, .rst⟩ :: rest, now + dt⟩
+      | .data b =>
+        if buf ++ b = [] then ⟨.error .notApplicable, nm, buf ++ b, none, rest, now + dt⟩
+        else match sniffGroupTcp (buf ++ b) with
+          | .error .needMore => sniffLoopT D (buf ++ b) true (now + dt) rest
+          | r => ⟨r, nm, buf ++ b, none, rest, now + dt⟩
+    else ⟨.error .timeout, nm, buf, none, ⟨now + dt - max now D, e⟩ :: rest, max now D⟩
+
+def sniffTcpT (D : Nat) (script : List TEv) : TimedOutcome := sniffLoopT D [] false 0 script
+
+/-- The same script as the untimed sniffer sees it: a `stall` where the deadline comes first. -/
+def untime (D : Nat) (now : Nat) : List TEv → List Ev
+  | [] => []
+  | ⟨dt, e⟩ :: rest =>
+    if now + dt < D then
+      (match e with
+       | .stall => untime D (now + dt) rest
+       | e => e :: untime D (now + dt) rest)
+    else .stall :: e :: rest.map TEv.ev
+
 end DaeVerif.C06
